@@ -113,6 +113,7 @@ type Exchange struct {
 	Path     string     // request path
 	SentPath string     // the path the client asked for (differs from Path after Decision.Redirect)
 	RawQuery string     // the raw query of the request exactly as received
+	Body     []byte     // the response body (kept when shorter than 8 KiB)
 	Query    url.Values // request query as received
 	Dec      Decision
 	Status   int
@@ -488,6 +489,9 @@ func (r *Registry) RoundTrip(req *http.Request) (*http.Response, error) {
 		body = append(body, []byte(`{"tags":["zzz"],"repositories":["zzz"],"manifests":[{"mediaType":"x","digest":"sha256:00","size":1}]}`)...)
 	}
 	x.TotalLen = len(body)
+	if len(body) < 8192 {
+		x.Body = body
+	}
 	x.Status = http.StatusOK
 	x.body = &countingBody{r: bytes.NewReader(body)}
 	return &http.Response{Status: "200 OK", StatusCode: 200, Proto: "HTTP/1.1", ProtoMajor: 1, ProtoMinor: 1,
